@@ -775,3 +775,304 @@ Example C03_struct_table_rule_nonvacuous :
   C03StructRoots.eval_dsrc [((0, 1%N, 0), mkspan 11 11)] (fun _ => 0) C03StructRoots.DWithLen1 = Some (mkspan 11 12) /\
   ~ span_in 11 (mkspan 11 12).
 Proof. exact C03StructRootsProofs.struct_table_rule_example. Qed.
+
+(* ================= phase 7: SentenceCapitalization — the last struct rule's premise, from the lexer (C02) ================= *)
+Require C03StructWord C03StructWordProofs.
+Require Lexer Condense LexerProofs C02Gapped.
+
+(* phase 7 — over NON-EMPTY tokens inside the source EVERY parsed source, `T.span.with_len(1)` included, denotes a span inside the
+   document for every value of its run-time token indices (only DUnknown is excluded) *)
+Theorem C03_struct_span_expr_in_document_nonempty :
+  forall (kind : Type) n (ts : list (Cache.tok kind)) dyn a s,
+    Forall (fun t : Cache.tok kind => sstart (snd t) < send (snd t) /\ send (snd t) <= n) ts ->
+    a <> C03StructRoots.DUnknown -> C03StructRoots.eval_dsrc ts dyn a = Some s -> span_in n s.
+Proof. exact C03StructWordProofs.eval_dsrc_in_ne_pin. Qed.
+Check C03_struct_span_expr_in_document_nonempty :
+  forall (kind : Type) n (ts : list (Cache.tok kind)) dyn a s,
+    Forall (fun t : Cache.tok kind => sstart (snd t) < send (snd t) /\ send (snd t) <= n) ts ->
+    a <> C03StructRoots.DUnknown -> C03StructRoots.eval_dsrc ts dyn a = Some s -> span_in n s.
+Print Assumptions C03_struct_span_expr_in_document_nonempty.
+
+(* the lexer side, imported from C02 (document_plain_tiling: the tokens of Document::new_plain_english tile the text): every token
+   of a plain-English document — so the first word of every sentence — is non-empty and inside the source; ANY Unicode tables, any
+   encoding of kinds; no hypothesis (plain_dtoks = Condense.document_plain, the C02 model, read as LintGroup's document.tokens) *)
+Theorem C03_plain_tokens_nonempty_in_source :
+  forall (u : Lexer.uni) (enc : Lexer.token -> C03Roots.pkind) (d : ldoc C03Roots.pkind),
+    Forall (fun t : Cache.tok C03Roots.pkind => sstart (snd t) < send (snd t) /\ send (snd t) <= length (l_src d))
+           (C03StructWord.plain_dtoks u enc d).
+Proof. exact C03StructWordProofs.plain_tokens_pin. Qed.
+Check C03_plain_tokens_nonempty_in_source :
+  forall (u : Lexer.uni) (enc : Lexer.token -> C03Roots.pkind) (d : ldoc C03Roots.pkind),
+    Forall (fun t : Cache.tok C03Roots.pkind => sstart (snd t) < send (snd t) /\ send (snd t) <= length (l_src d))
+           (C03StructWord.plain_dtoks u enc d).
+Print Assumptions C03_plain_tokens_nonempty_in_source.
+
+(* a whole-document rule built from ANY row whose sources are all parsed (drow_classified_ne: with_len(1) allowed, roots classified)
+   satisfies wrules_ok when the document's tokens are non-empty and inside the source *)
+Theorem C03_table_struct_rules_ok_nonempty :
+  forall (dtoks : ldoc C03Roots.pkind -> list (Cache.tok C03Roots.pkind)) (linters : list (N * wrule C03Roots.pkind)),
+    (forall d, doc_ok C03Roots.pkind d ->
+       Forall (fun t : Cache.tok C03Roots.pkind => sstart (snd t) < send (snd t) /\ send (snd t) <= length (l_src d)) (dtoks d)) ->
+    (forall n r, In (n, r) linters ->
+       (exists row sel, In row Tables_c03structroots.struct_rule_bodies /\ C03StructWord.drow_classified_ne row = true /\
+                        r = C03StructRoots.struct_wrule dtoks (C03StructRoots.drow_srcs row) sel) \/
+       (forall t d, doc_ok C03Roots.pkind d -> Forall (lint_in (length (l_src d))) (r t d))) ->
+    forall n r t d, In (n, r) linters -> doc_ok C03Roots.pkind d -> Forall (lint_in (length (l_src d))) (r t d).
+Proof. exact C03StructWordProofs.table_struct_rules_ok_ne. Qed.
+Check C03_table_struct_rules_ok_nonempty :
+  forall (dtoks : ldoc C03Roots.pkind -> list (Cache.tok C03Roots.pkind)) (linters : list (N * wrule C03Roots.pkind)),
+    (forall d, doc_ok C03Roots.pkind d ->
+       Forall (fun t : Cache.tok C03Roots.pkind => sstart (snd t) < send (snd t) /\ send (snd t) <= length (l_src d)) (dtoks d)) ->
+    (forall n r, In (n, r) linters ->
+       (exists row sel, In row Tables_c03structroots.struct_rule_bodies /\ C03StructWord.drow_classified_ne row = true /\
+                        r = C03StructRoots.struct_wrule dtoks (C03StructRoots.drow_srcs row) sel) \/
+       (forall t d, doc_ok C03Roots.pkind d -> Forall (lint_in (length (l_src d))) (r t d))) ->
+    forall n r t d, In (n, r) linters -> doc_ok C03Roots.pkind d -> Forall (lint_in (length (l_src d))) (r t d).
+Print Assumptions C03_table_struct_rules_ok_nonempty.
+
+(* today's table: for documents whose tokens are non-empty (plain English) the list of struct rules that keep a premise is EMPTY;
+   every with_len(1) site is dominated by `if !T.kind.is_word() { continue; }` (struct_word_guards, regenerated); the rules of
+   C03_struct_rules_with_premise are the rows with a with_len(1) site *)
+Theorem C03_struct_rules_with_premise_plain :
+  C03StructWordProofs.struct_rows_unclassified_ne = [] /\ C03StructWordProofs.struct_rows_unguarded = [] /\
+  forallb (fun n => existsb (fun r => String.eqb (C03StructRoots.d_name r) n &&
+                                      existsb (fun s => match C03StructRoots.d_src s with C03StructRoots.DWithLen1 => true | _ => false end) (C03StructRoots.d_sites r))
+                            Tables_c03structroots.struct_rule_bodies) C03StructRootsProofs.struct_rules_with_premise = true /\
+  15 <= length (filter C03StructWord.drow_classified_ne Tables_c03structroots.struct_rule_bodies).
+Proof. exact C03StructWordProofs.struct_table_plain_today. Qed.
+Check C03_struct_rules_with_premise_plain :
+  C03StructWordProofs.struct_rows_unclassified_ne = [] /\ C03StructWordProofs.struct_rows_unguarded = [] /\
+  forallb (fun n => existsb (fun r => String.eqb (C03StructRoots.d_name r) n &&
+                                      existsb (fun s => match C03StructRoots.d_src s with C03StructRoots.DWithLen1 => true | _ => false end) (C03StructRoots.d_sites r))
+                            Tables_c03structroots.struct_rule_bodies) C03StructRootsProofs.struct_rules_with_premise = true /\
+  15 <= length (filter C03StructWord.drow_classified_ne Tables_c03structroots.struct_rule_bodies).
+Print Assumptions C03_struct_rules_with_premise_plain.
+
+(* LintGroup::lint on plain-English documents, every history: whole-document rules = rows of the struct table over the tokens of
+   Document::new_plain_english (or rules with their own premise — today: only rules that are not rows), pattern rules = rules of the
+   pattern table: no call panics, every lint inside its document — NO token hypothesis, NO premise on SentenceCapitalization *)
+Theorem C03_plain_struct_lintgroup_history_in_bounds :
+  forall (cfg : Type) (enabled : cfg -> N -> bool) (cfg_hash : cfg -> N) (tok_hash : list (Cache.tok C03Roots.pkind) -> N)
+         (u : Lexer.uni) (enc : Lexer.token -> C03Roots.pkind)
+         (linters : list (N * wrule C03Roots.pkind)) (plinters : list (N * prule C03Roots.pkind)),
+    (forall n r, In (n, r) linters ->
+       (exists row sel, In row Tables_c03structroots.struct_rule_bodies /\ C03StructWord.drow_classified_ne row = true /\
+                        r = C03StructRoots.struct_wrule (C03StructWord.plain_dtoks u enc) (C03StructRoots.drow_srcs row) sel) \/
+       (forall t d, doc_ok C03Roots.pkind d -> Forall (lint_in (length (l_src d))) (r t d))) ->
+    (forall n r, In (n, r) plinters ->
+       exists row leaf oracle p sel,
+         In row Tables_c03roots.pattern_rule_bodies /\ C03Roots.row_lints_matched row = true /\
+         r = C03Roots.pattern_prule leaf oracle p (C03Roots.row_lint_asts row) sel) ->
+    forall (h : list (lop cfg C03Roots.pkind)) (st : lstate cfg),
+      hist_ok cfg C03Roots.pkind h -> cache_ok (lg_cache st) ->
+      exists st' outs,
+        lg_run cfg C03Roots.pkind enabled cfg_hash tok_hash linters plinters h st = Ok (st', outs) /\
+        cache_ok (lg_cache st') /\
+        map fst outs = hist_docs cfg C03Roots.pkind h /\
+        Forall (fun p => Forall (lint_in (length (l_src (fst p)))) (snd p)) outs.
+Proof. exact C03StructWordProofs.plain_struct_lintgroup_history_in_bounds. Qed.
+Check C03_plain_struct_lintgroup_history_in_bounds :
+  forall (cfg : Type) (enabled : cfg -> N -> bool) (cfg_hash : cfg -> N) (tok_hash : list (Cache.tok C03Roots.pkind) -> N)
+         (u : Lexer.uni) (enc : Lexer.token -> C03Roots.pkind)
+         (linters : list (N * wrule C03Roots.pkind)) (plinters : list (N * prule C03Roots.pkind)),
+    (forall n r, In (n, r) linters ->
+       (exists row sel, In row Tables_c03structroots.struct_rule_bodies /\ C03StructWord.drow_classified_ne row = true /\
+                        r = C03StructRoots.struct_wrule (C03StructWord.plain_dtoks u enc) (C03StructRoots.drow_srcs row) sel) \/
+       (forall t d, doc_ok C03Roots.pkind d -> Forall (lint_in (length (l_src d))) (r t d))) ->
+    (forall n r, In (n, r) plinters ->
+       exists row leaf oracle p sel,
+         In row Tables_c03roots.pattern_rule_bodies /\ C03Roots.row_lints_matched row = true /\
+         r = C03Roots.pattern_prule leaf oracle p (C03Roots.row_lint_asts row) sel) ->
+    forall (h : list (lop cfg C03Roots.pkind)) (st : lstate cfg),
+      hist_ok cfg C03Roots.pkind h -> cache_ok (lg_cache st) ->
+      exists st' outs,
+        lg_run cfg C03Roots.pkind enabled cfg_hash tok_hash linters plinters h st = Ok (st', outs) /\
+        cache_ok (lg_cache st') /\
+        map fst outs = hist_docs cfg C03Roots.pkind h /\
+        Forall (fun p => Forall (lint_in (length (l_src (fst p)))) (snd p)) outs.
+Print Assumptions C03_plain_struct_lintgroup_history_in_bounds.
+
+(* the other front-ends (zero-width Newline / ParagraphBreak tokens exist): with_len(1) evaluated only on a token `isw` accepts (the
+   is_word() guard) stays inside the document when tokens lie inside the source and WORD tokens are non-empty *)
+Theorem C03_word_guard_span_in_document :
+  forall (kind : Type) (isw : kind -> bool) n (ts : list (Cache.tok kind)) dyn a s,
+    Forall (C03RootsProofs.tok_within 0 n) ts ->
+    Forall (fun t : Cache.tok kind => isw (fst t) = true -> sstart (snd t) < send (snd t)) ts ->
+    C03StructWord.dsrc_classified_ne a = true -> C03StructWord.eval_dsrc_w isw ts dyn a = Some s -> span_in n s.
+Proof. exact C03StructWordProofs.eval_dsrc_w_in. Qed.
+Check C03_word_guard_span_in_document :
+  forall (kind : Type) (isw : kind -> bool) n (ts : list (Cache.tok kind)) dyn a s,
+    Forall (C03RootsProofs.tok_within 0 n) ts ->
+    Forall (fun t : Cache.tok kind => isw (fst t) = true -> sstart (snd t) < send (snd t)) ts ->
+    C03StructWord.dsrc_classified_ne a = true -> C03StructWord.eval_dsrc_w isw ts dyn a = Some s -> span_in n s.
+Print Assumptions C03_word_guard_span_in_document.
+
+(* ... and C02's property-level invariant TokInv (proved there for the wrapped / gapped front-ends) gives exactly that: a Word token is
+   never zero-width *)
+Theorem C03_tokinv_word_tokens_nonempty :
+  forall (enc : Lexer.token -> C03Roots.pkind) (isw : C03Roots.pkind -> bool) n ts,
+    (forall t, isw (enc t) = true -> Lexer.tkind_of t = Lexer.KWord) ->
+    C02Gapped.TokInv n ts ->
+    Forall (fun t : Cache.tok C03Roots.pkind => isw (fst t) = true -> sstart (snd t) < send (snd t)) (C03StructWord.plain_ctoks enc ts).
+Proof. exact C03StructWordProofs.tokinv_word_tokens_nonempty. Qed.
+Check C03_tokinv_word_tokens_nonempty :
+  forall (enc : Lexer.token -> C03Roots.pkind) (isw : C03Roots.pkind -> bool) n ts,
+    (forall t, isw (enc t) = true -> Lexer.tkind_of t = Lexer.KWord) ->
+    C02Gapped.TokInv n ts ->
+    Forall (fun t : Cache.tok C03Roots.pkind => isw (fst t) = true -> sstart (snd t) < send (snd t)) (C03StructWord.plain_ctoks enc ts).
+Print Assumptions C03_tokinv_word_tokens_nonempty.
+
+(* rows with guarded with_len(1) sites satisfy wrules_ok under the token invariant + non-empty word tokens *)
+Theorem C03_table_struct_rules_ok_word_guard :
+  forall (isw : C03Roots.pkind -> bool) (dtoks : ldoc C03Roots.pkind -> list (Cache.tok C03Roots.pkind))
+         (linters : list (N * wrule C03Roots.pkind)),
+    (forall d, doc_ok C03Roots.pkind d -> Forall (C03RootsProofs.tok_within 0 (length (l_src d))) (dtoks d)) ->
+    (forall d, doc_ok C03Roots.pkind d ->
+       Forall (fun t : Cache.tok C03Roots.pkind => isw (fst t) = true -> sstart (snd t) < send (snd t)) (dtoks d)) ->
+    (forall n r, In (n, r) linters ->
+       (exists row sel, In row Tables_c03structroots.struct_rule_bodies /\ C03StructWord.drow_classified_ne row = true /\
+                        C03StructWord.drow_guarded Tables_c03structroots.struct_word_guards row = true /\
+                        r = C03StructWord.struct_wrule_w isw dtoks (C03StructRoots.drow_srcs row) sel) \/
+       (forall t d, doc_ok C03Roots.pkind d -> Forall (lint_in (length (l_src d))) (r t d))) ->
+    forall n r t d, In (n, r) linters -> doc_ok C03Roots.pkind d -> Forall (lint_in (length (l_src d))) (r t d).
+Proof. exact C03StructWordProofs.table_struct_rules_ok_w. Qed.
+Check C03_table_struct_rules_ok_word_guard :
+  forall (isw : C03Roots.pkind -> bool) (dtoks : ldoc C03Roots.pkind -> list (Cache.tok C03Roots.pkind))
+         (linters : list (N * wrule C03Roots.pkind)),
+    (forall d, doc_ok C03Roots.pkind d -> Forall (C03RootsProofs.tok_within 0 (length (l_src d))) (dtoks d)) ->
+    (forall d, doc_ok C03Roots.pkind d ->
+       Forall (fun t : Cache.tok C03Roots.pkind => isw (fst t) = true -> sstart (snd t) < send (snd t)) (dtoks d)) ->
+    (forall n r, In (n, r) linters ->
+       (exists row sel, In row Tables_c03structroots.struct_rule_bodies /\ C03StructWord.drow_classified_ne row = true /\
+                        C03StructWord.drow_guarded Tables_c03structroots.struct_word_guards row = true /\
+                        r = C03StructWord.struct_wrule_w isw dtoks (C03StructRoots.drow_srcs row) sel) \/
+       (forall t d, doc_ok C03Roots.pkind d -> Forall (lint_in (length (l_src d))) (r t d))) ->
+    forall n r t d, In (n, r) linters -> doc_ok C03Roots.pkind d -> Forall (lint_in (length (l_src d))) (r t d).
+Print Assumptions C03_table_struct_rules_ok_word_guard.
+
+(* non-vacuity: the row of SentenceCapitalization over the tokens of the plain-English document "ab cd." (ASCII tables):
+   unclassified before, classified now, guarded; tokens 0..2 2..3 3..5 5..6; with_len(1) of the first word, of the space (the
+   guarded reading skips it) and of the final "." at the end of the source — all inside *)
+Example C03_plain_struct_rule_nonvacuous :
+  C03StructRoots.d_name C03StructWordProofs.exw_row = C03StructWordProofs.exw_name /\ C03StructRoots.drow_srcs C03StructWordProofs.exw_row = [C03StructRoots.DWithLen1] /\
+  C03StructRoots.drow_classified C03StructWordProofs.exw_row = false /\ C03StructWord.drow_classified_ne C03StructWordProofs.exw_row = true /\
+  C03StructWord.drow_guarded Tables_c03structroots.struct_word_guards C03StructWordProofs.exw_row = true /\
+  C03StructWordProofs.struct_table_rule_ne (C03StructWord.plain_dtoks LexerProofs.ascii_uni C03StructWordProofs.exw_enc) C03StructWordProofs.exw_rule /\
+  map snd (C03StructWord.plain_dtoks LexerProofs.ascii_uni C03StructWordProofs.exw_enc C03StructWordProofs.exw_doc) = [mkspan 0 2; mkspan 2 3; mkspan 3 5; mkspan 5 6] /\
+  C03StructWordProofs.exw_rule 0 C03StructWordProofs.exw_doc = [mkclint (mkspan 0 1) 7%N; mkclint (mkspan 2 3) 7%N; mkclint (mkspan 5 6) 7%N] /\
+  C03StructWordProofs.exw_rule_w 0 C03StructWordProofs.exw_doc = [mkclint (mkspan 0 1) 7%N] /\
+  Forall (lint_in (length C03StructWordProofs.exw_src)) (C03StructWordProofs.exw_rule 0 C03StructWordProofs.exw_doc).
+Proof. exact C03StructWordProofs.plain_struct_rule_example. Qed.
+
+(* ================= phase 7: whole-document rules that are not `impl Linter` rows — blanket impl, merge_linters!, MapPhraseLinter ================= *)
+Require C03Blanket C03BlanketProofs.
+
+(* the blanket `impl<L: PatternLinter> Linter for L` (run_on_chunk over every chunk of document.iter_chunks()): a pattern rule that
+   keeps its lints inside the hull of its chunk is a whole-document rule that keeps its lints inside the document *)
+Theorem C03_blanket_wrule_ok :
+  forall (kind : Type) (p : prule kind),
+    (forall t src (ts : list (Cache.tok kind)) sp, toks_wf kind ts -> hull_of ts = Ok (Some sp) -> send sp <= length src ->
+       Forall (lint_within sp) (p t src ts)) ->
+    forall t d, doc_ok kind d -> Forall (lint_in (length (l_src d))) (C03Blanket.blanket_wrule p t d).
+Proof. exact C03BlanketProofs.blanket_wrule_ok. Qed.
+Check C03_blanket_wrule_ok :
+  forall (kind : Type) (p : prule kind),
+    (forall t src (ts : list (Cache.tok kind)) sp, toks_wf kind ts -> hull_of ts = Ok (Some sp) -> send sp <= length src ->
+       Forall (lint_within sp) (p t src ts)) ->
+    forall t d, doc_ok kind d -> Forall (lint_in (length (l_src d))) (C03Blanket.blanket_wrule p t d).
+Print Assumptions C03_blanket_wrule_ok.
+
+(* merge_linters!: the lints of the merged rules, filtered by any function that only drops lints (remove_overlaps: C13) *)
+Theorem C03_merged_wrule_ok :
+  forall (kind : Type) (keep : list clint -> list clint) (rs : list (wrule kind)),
+    (forall l x, In x (keep l) -> In x l) ->
+    Forall (fun r : wrule kind => forall t d, doc_ok kind d -> Forall (lint_in (length (l_src d))) (r t d)) rs ->
+    forall t d, doc_ok kind d -> Forall (lint_in (length (l_src d))) (C03Blanket.merged_wrule keep rs t d).
+Proof. exact C03BlanketProofs.merged_wrule_ok. Qed.
+Check C03_merged_wrule_ok :
+  forall (kind : Type) (keep : list clint -> list clint) (rs : list (wrule kind)),
+    (forall l x, In x (keep l) -> In x l) ->
+    Forall (fun r : wrule kind => forall t d, doc_ok kind d -> Forall (lint_in (length (l_src d))) (r t d)) rs ->
+    forall t d, doc_ok kind d -> Forall (lint_in (length (l_src d))) (C03Blanket.merged_wrule keep rs t d).
+Print Assumptions C03_merged_wrule_ok.
+
+(* a rule of the PATTERN table registered as a whole-document rule — through the blanket impl (TheHowWhy, WidelyAccepted, the
+   MapPhraseLinter closed compounds) or merged by merge_linters! (HopHope, CompoundNouns, PronounContraction, LetsConfusion) — needs
+   no premise *)
+Theorem C03_blanket_table_rule_ok :
+  forall r : wrule C03Roots.pkind, C03BlanketProofs.blanket_table_rule r ->
+    forall t d, doc_ok C03Roots.pkind d -> Forall (lint_in (length (l_src d))) (r t d).
+Proof. exact C03BlanketProofs.blanket_table_rule_ok. Qed.
+Check C03_blanket_table_rule_ok :
+  forall r : wrule C03Roots.pkind, C03BlanketProofs.blanket_table_rule r ->
+    forall t d, doc_ok C03Roots.pkind d -> Forall (lint_in (length (l_src d))) (r t d).
+Print Assumptions C03_blanket_table_rule_ok.
+
+(* today's tables: every PatternLinter type behind a whole-document registration of new_curated that is not a struct row (regenerated list
+   whole_document_nonrow_registrations; the generator raises when a registration is of any other kind) has a rooted row in the pattern table *)
+Theorem C03_blanket_rows_today :
+  forallb (fun n => existsb (fun row => String.eqb (C03Roots.p_name row) n && C03Roots.row_lints_matched row)
+                            Tables_c03roots.pattern_rule_bodies) C03BlanketProofs.blanket_registered = true /\
+  5 <= length Tables_c03structroots.whole_document_nonrow_registrations.
+Proof. exact C03BlanketProofs.blanket_rows_today. Qed.
+Check C03_blanket_rows_today :
+  forallb (fun n => existsb (fun row => String.eqb (C03Roots.p_name row) n && C03Roots.row_lints_matched row)
+                            Tables_c03roots.pattern_rule_bodies) C03BlanketProofs.blanket_registered = true /\
+  5 <= length Tables_c03structroots.whole_document_nonrow_registrations.
+Print Assumptions C03_blanket_rows_today.
+
+(* LintGroup::lint with every kind of registration new_curated makes, on plain-English documents, over every history: NO premise on any
+   rule and no token hypothesis — whole-document rules are struct rows over the lexer's tokens or pattern-table rules through the
+   blanket impl / merge_linters!, pattern rules are rules of the table *)
+Theorem C03_plain_curated_lintgroup_history_in_bounds :
+  forall (cfg : Type) (enabled : cfg -> N -> bool) (cfg_hash : cfg -> N) (tok_hash : list (Cache.tok C03Roots.pkind) -> N)
+         (u : Lexer.uni) (enc : Lexer.token -> C03Roots.pkind)
+         (linters : list (N * wrule C03Roots.pkind)) (plinters : list (N * prule C03Roots.pkind)),
+    (forall n r, In (n, r) linters ->
+       (exists row sel, In row Tables_c03structroots.struct_rule_bodies /\ C03StructWord.drow_classified_ne row = true /\
+                        r = C03StructRoots.struct_wrule (C03StructWord.plain_dtoks u enc) (C03StructRoots.drow_srcs row) sel) \/
+       C03BlanketProofs.blanket_table_rule r) ->
+    (forall n r, In (n, r) plinters ->
+       exists row leaf oracle p sel,
+         In row Tables_c03roots.pattern_rule_bodies /\ C03Roots.row_lints_matched row = true /\
+         r = C03Roots.pattern_prule leaf oracle p (C03Roots.row_lint_asts row) sel) ->
+    forall (h : list (lop cfg C03Roots.pkind)) (st : lstate cfg),
+      hist_ok cfg C03Roots.pkind h -> cache_ok (lg_cache st) ->
+      exists st' outs,
+        lg_run cfg C03Roots.pkind enabled cfg_hash tok_hash linters plinters h st = Ok (st', outs) /\
+        cache_ok (lg_cache st') /\
+        map fst outs = hist_docs cfg C03Roots.pkind h /\
+        Forall (fun p => Forall (lint_in (length (l_src (fst p)))) (snd p)) outs.
+Proof. exact C03BlanketProofs.plain_curated_lintgroup_history_in_bounds. Qed.
+Check C03_plain_curated_lintgroup_history_in_bounds :
+  forall (cfg : Type) (enabled : cfg -> N -> bool) (cfg_hash : cfg -> N) (tok_hash : list (Cache.tok C03Roots.pkind) -> N)
+         (u : Lexer.uni) (enc : Lexer.token -> C03Roots.pkind)
+         (linters : list (N * wrule C03Roots.pkind)) (plinters : list (N * prule C03Roots.pkind)),
+    (forall n r, In (n, r) linters ->
+       (exists row sel, In row Tables_c03structroots.struct_rule_bodies /\ C03StructWord.drow_classified_ne row = true /\
+                        r = C03StructRoots.struct_wrule (C03StructWord.plain_dtoks u enc) (C03StructRoots.drow_srcs row) sel) \/
+       C03BlanketProofs.blanket_table_rule r) ->
+    (forall n r, In (n, r) plinters ->
+       exists row leaf oracle p sel,
+         In row Tables_c03roots.pattern_rule_bodies /\ C03Roots.row_lints_matched row = true /\
+         r = C03Roots.pattern_prule leaf oracle p (C03Roots.row_lint_asts row) sel) ->
+    forall (h : list (lop cfg C03Roots.pkind)) (st : lstate cfg),
+      hist_ok cfg C03Roots.pkind h -> cache_ok (lg_cache st) ->
+      exists st' outs,
+        lg_run cfg C03Roots.pkind enabled cfg_hash tok_hash linters plinters h st = Ok (st', outs) /\
+        cache_ok (lg_cache st') /\
+        map fst outs = hist_docs cfg C03Roots.pkind h /\
+        Forall (fun p => Forall (lint_in (length (l_src (fst p)))) (snd p)) outs.
+Print Assumptions C03_plain_curated_lintgroup_history_in_bounds.
+
+(* non-vacuity: the Hereby row as a whole-document rule on a document with the chunk "ab cd ef." at 2..11 and an empty chunk; merged
+   with itself under a `keep` that drops every second lint *)
+Example C03_blanket_rule_nonvacuous :
+  C03RootsProofs.table_rule C03RootsProofs.exr_rule /\ doc_ok C03Roots.pkind C03BlanketProofs.exb_doc /\
+  C03BlanketProofs.blanket_table_rule (C03Blanket.blanket_wrule C03RootsProofs.exr_rule) /\
+  C03Blanket.blanket_wrule C03RootsProofs.exr_rule 0 C03BlanketProofs.exb_doc = [mkclint (mkspan 2 7) 5%N; mkclint (mkspan 7 11) 5%N] /\
+  C03BlanketProofs.blanket_table_rule (C03Blanket.merged_wrule C03BlanketProofs.exb_keep (map C03Blanket.blanket_wrule [C03RootsProofs.exr_rule; C03RootsProofs.exr_rule])) /\
+  C03Blanket.merged_wrule C03BlanketProofs.exb_keep (map C03Blanket.blanket_wrule [C03RootsProofs.exr_rule; C03RootsProofs.exr_rule]) 0 C03BlanketProofs.exb_doc =
+    [mkclint (mkspan 2 7) 5%N; mkclint (mkspan 2 7) 5%N] /\
+  Forall (lint_in 11) (C03Blanket.merged_wrule C03BlanketProofs.exb_keep (map C03Blanket.blanket_wrule [C03RootsProofs.exr_rule; C03RootsProofs.exr_rule]) 0 C03BlanketProofs.exb_doc).
+Proof. exact C03BlanketProofs.blanket_rule_example. Qed.
